@@ -968,7 +968,9 @@ type snProfile struct {
 	oddStrings  bool // empty / number-like strings and keys
 }
 
-var snStrings = []string{"a", "hello world", "it's", `say "hi"`, `back\slash`, `both ' and "`, "x_y-z.w+v", "ünï", "\x01\xff", "{[,:;]}", " lead", "trail ", "A1", "b2b", "line\nbreak", "tab\there", strings.Repeat("long ", 30), "e", "B", "I;", "L"}
+var snStrings = []string{"a", "hello world", "it's", `say "hi"`, `back\slash`, `both ' and "`, "x_y-z.w+v", "ünï", "\x01\xff", "{[,:;]}", " lead", "trail ", "A1", "b2b", "line\nbreak", "tab\there", strings.Repeat("long ", 30), "e", "B", "I;", "L",
+	// multi-byte characters whose code point, cut to its low byte, is a letter, digit or sign ('-', 'A', '0' ...)
+	"中", "Ł", "a中", "\U0001F630", "Ł中-\U0001F630"}
 
 // ("true"/"false" are not here: printed bare they are grey in the listed grammar)
 var snOddStrings = []string{"", "123", "-1", "1.5", "1b", "0x10", "1e5", "-", "12L", ".5", "+1", "1f", "0"}
